@@ -18,6 +18,7 @@ import (
 	"google.golang.org/grpc/metadata"
 	"google.golang.org/grpc/peer"
 
+	"istio.io/istio/pilot/pkg/features"
 	"istio.io/istio/pilot/pkg/model"
 	pxds "istio.io/istio/pilot/pkg/xds"
 	v3 "istio.io/istio/pilot/pkg/xds/v3"
@@ -45,6 +46,7 @@ type srvSUT struct {
 	d     *pxds.DiscoveryServer
 	conns []*srvConn
 	byID  map[string]*srvConn
+	byPeer map[string]*srvConn
 
 	mu      sync.Mutex
 	seen    map[int]factSet // connection -> "c:<key>" of every pushRequest its stream loop received, "f:<key>" if that request was forced
@@ -58,10 +60,14 @@ type srvSUT struct {
 	gateGo  chan struct{}
 
 	heldNow *srvConn // the connection currently parked between addCon and MarkInitialized
+	nconfig int64    // ConfigUpdate calls made by the harness (InboundUpdates must agree)
+	inBase  int64    // InboundUpdates when the case started (the server's own start-up notifications)
+	down    bool     // DiscoveryServer.Shutdown() has been called (the push queue ignores new requests)
 
 	verdict string
 	opIdx   int
 	ended   bool
+	active  bool // something has been accepted since the last sync (a stream loop may be in a push)
 }
 
 // srvBox is the sut of the stream: one fresh server per case.
@@ -72,7 +78,12 @@ func (b *srvBox) apply(f []string) string {
 		if b.s != nil {
 			b.s.close()
 		}
-		b.s = newSrvSUT()
+		throttle, eds := 0, true
+		if len(f) >= 5 {
+			throttle, _ = strconv.Atoi(f[3])
+			eds = f[4] != "0"
+		}
+		b.s = newSrvSUT(throttle, eds)
 		return "ok"
 	}
 	if b.s == nil {
@@ -107,10 +118,18 @@ func (f *srvFailer) done() {
 	f.cleanups = nil
 	f.mu.Unlock()
 	for i := len(cs) - 1; i >= 0; i-- {
-		func() {
+		// a clean-up may block for good (DiscoveryServer.Shutdown called a second time, after a `shutdown`
+		// op, waits on the JWKS resolver): give it a moment, then go on
+		fin := make(chan struct{})
+		go func(fn func()) {
+			defer close(fin)
 			defer func() { _ = recover() }()
-			cs[i]()
-		}()
+			fn()
+		}(cs[i])
+		select {
+		case <-fin:
+		case <-time.After(1500 * time.Millisecond):
+		}
 	}
 }
 
@@ -118,6 +137,7 @@ func (f *srvFailer) done() {
 // interface (through the two wrapper types below); what a real network could do to it is scripted.
 type srvConn struct {
 	idx      int
+	node     int // identity presented (index of the first connection with this node id)
 	delta    bool
 	nodeID   string
 	ctx      context.Context
@@ -127,7 +147,9 @@ type srvConn struct {
 	failSend atomic.Bool
 	block    atomic.Bool
 	unblock  chan struct{}
+	pulse    chan struct{} // lets exactly one blocked Send go on while the client keeps not reading
 	sends    atomic.Int64
+	nonce    atomic.Value // string: nonce of the last response sent to the client
 	returned chan struct{} // the server's stream handler returned
 	held     bool
 	// bookkeeping by the rule of the ops (not by observation)
@@ -135,6 +157,8 @@ type srvConn struct {
 	dead       bool
 	expected   factSet
 	failArmed  bool
+	busy       bool // its stream loop sits in Process (answering a request, Send blocked): it takes no push event
+	reqd       bool // has made its one `busyreq`
 }
 
 func (c *srvConn) SetHeader(metadata.MD) error  { return nil }
@@ -149,6 +173,7 @@ func (c *srvConn) send() error {
 	if c.block.Load() {
 		select {
 		case <-c.unblock:
+		case <-c.pulse:
 		case <-c.ctx.Done():
 			return c.ctx.Err()
 		}
@@ -164,7 +189,10 @@ func (c *srvConn) send() error {
 
 type sotwSide struct{ *srvConn }
 
-func (s sotwSide) Send(*discovery.DiscoveryResponse) error { return s.send() }
+func (s sotwSide) Send(r *discovery.DiscoveryResponse) error {
+	s.nonce.Store(r.GetNonce())
+	return s.send()
+}
 func (s sotwSide) Recv() (*discovery.DiscoveryRequest, error) {
 	select {
 	case r := <-s.reqs:
@@ -176,7 +204,10 @@ func (s sotwSide) Recv() (*discovery.DiscoveryRequest, error) {
 
 type deltaSide struct{ *srvConn }
 
-func (s deltaSide) Send(*discovery.DeltaDiscoveryResponse) error { return s.send() }
+func (s deltaSide) Send(r *discovery.DeltaDiscoveryResponse) error {
+	s.nonce.Store(r.GetNonce())
+	return s.send()
+}
 func (s deltaSide) Recv() (*discovery.DeltaDiscoveryRequest, error) {
 	select {
 	case r := <-s.dreqs:
@@ -186,8 +217,15 @@ func (s deltaSide) Recv() (*discovery.DeltaDiscoveryRequest, error) {
 	}
 }
 
-func newSrvSUT() *srvSUT {
-	s := &srvSUT{f: &srvFailer{}, byID: map[string]*srvConn{}, seen: map[int]factSet{}, vers: map[int][]uint64{}, lastVer: map[int]uint64{},
+func newSrvSUT(throttle int, eds bool) *srvSUT {
+	// per-case server settings (package-level features read by NewDiscoveryServer)
+	if throttle > 0 {
+		features.PushThrottle = throttle
+	} else {
+		features.PushThrottle = 100
+	}
+	features.EnableEDSDebounce = eds
+	s := &srvSUT{f: &srvFailer{}, byID: map[string]*srvConn{}, byPeer: map[string]*srvConn{}, seen: map[int]factSet{}, vers: map[int][]uint64{}, lastVer: map[int]uint64{},
 		shared: map[*model.PushRequest]reqSnap{}, forcedK: sets.New[string](), gateHit: make(chan struct{}, 1), gateGo: make(chan struct{})}
 	s.fs = xdsfake.NewFakeDiscoveryServer(s.f, xdsfake.FakeOptions{DebounceTime: 3 * time.Millisecond})
 	quiet.Silence()
@@ -196,8 +234,20 @@ func newSrvSUT() *srvSUT {
 	s.d.ProxyNeedsPush = func(proxy *model.Proxy, req *model.PushRequest) (*model.PushRequest, bool) {
 		// called by pushConnection / pushConnectionDelta with Event.pushRequest, before anything is sent
 		_, snap, _ := pxds.VerifC02ServerState(s.d)
+		// which of our clients: by the peer address of the connection that owns this proxy object (a node
+		// id can be connected twice while an old stream is closing)
+		peer := ""
+		for _, con := range s.d.AllClients() {
+			if con.Proxy() == proxy {
+				peer = con.Peer()
+			}
+		}
 		s.mu.Lock()
-		if c := s.byID[proxy.ID]; c != nil {
+		c := s.byPeer[peer]
+		if c == nil {
+			c = s.byID[proxy.ID]
+		}
+		if c != nil {
 			if s.seen[c.idx] == nil {
 				s.seen[c.idx] = sets.New[string]()
 			}
@@ -206,6 +256,15 @@ func newSrvSUT() *srvSUT {
 				if req.Forced {
 					s.seen[c.idx].Insert("f:" + showConfigKey(k))
 				}
+			}
+			for k := range req.AddressesUpdated {
+				s.seen[c.idx].Insert("a:" + k)
+			}
+			for k := range req.WaypointsUpdated {
+				s.seen[c.idx].Insert("w:" + showWaypoint(k))
+			}
+			if req.Forced {
+				s.seen[c.idx].Insert("forced")
 			}
 			// "uses the newest snapshot": versions a connection is pushed with never go back
 			v := pushVersionOf(req.Push)
@@ -241,6 +300,7 @@ func newSrvSUT() *srvSUT {
 		s.mu.Unlock()
 		return inner(proxy, req)
 	}
+	s.inBase = s.d.InboundUpdates.Load()
 	pxds.VerifE2ESetGate(func(point string) {
 		if point == "init:after-addcon" && s.gateArm.CompareAndSwap(true, false) {
 			gate := s.gateGo
@@ -277,19 +337,23 @@ func (s *srvSUT) fail(clause string) {
 	}
 }
 
-func (s *srvSUT) open(idx int, delta, held bool) string {
+// open: `node` is the identity the client presents (its own index, or that of an earlier connection it
+// re-connects as).
+func (s *srvSUT) open(idx int, delta, held bool, node int) string {
 	if idx != len(s.conns) {
 		return "bad-op"
 	}
 	// a plaintext peer, as a client on the insecure xDS port would be
-	ctx, cancel := context.WithCancel(peer.NewContext(context.Background(),
-		&peer.Peer{Addr: &net.TCPAddr{IP: net.IPv4(10, 0, byte(idx/200), byte(1+idx%200)), Port: 40000 + idx}}))
-	c := &srvConn{idx: idx, delta: delta, nodeID: fmt.Sprintf("sidecar~10.0.%d.%d~app%d.default~default.svc.cluster.local", idx/200, 1+idx%200, idx),
+	addr := &net.TCPAddr{IP: net.IPv4(10, 0, byte(node/200), byte(1+node%200)), Port: 40000 + idx}
+	ctx, cancel := context.WithCancel(peer.NewContext(context.Background(), &peer.Peer{Addr: addr}))
+	c := &srvConn{idx: idx, delta: delta, node: node,
+		nodeID: fmt.Sprintf("sidecar~10.0.%d.%d~app%d.default~default.svc.cluster.local", node/200, 1+node%200, node),
 		ctx: ctx, cancel: cancel, reqs: make(chan *discovery.DiscoveryRequest, 4), dreqs: make(chan *discovery.DeltaDiscoveryRequest, 4),
-		unblock: make(chan struct{}), returned: make(chan struct{}), expected: sets.New[string](), held: held}
+		unblock: make(chan struct{}), pulse: make(chan struct{}), returned: make(chan struct{}), expected: sets.New[string](), held: held}
 	s.conns = append(s.conns, c)
 	s.mu.Lock()
-	s.byID[fmt.Sprintf("app%d.default", idx)] = c // model.Proxy.ID = third field of the node id
+	s.byID[fmt.Sprintf("app%d.default", node)] = c // model.Proxy.ID = third field of the node id
+	s.byPeer[addr.String()] = c
 	s.mu.Unlock()
 	if held {
 		s.gateArm.Store(true)
@@ -308,11 +372,11 @@ func (s *srvSUT) open(idx int, delta, held bool) string {
 			fmt.Fprintln(os.Stderr, "stream", c.idx, "returned:", err)
 		}
 	}()
-	node := &core.Node{Id: c.nodeID}
+	cnode := &core.Node{Id: c.nodeID}
 	if delta {
-		c.dreqs <- &discovery.DeltaDiscoveryRequest{Node: node, TypeUrl: v3.ClusterType}
+		c.dreqs <- &discovery.DeltaDiscoveryRequest{Node: cnode, TypeUrl: v3.ClusterType}
 	} else {
-		c.reqs <- &discovery.DiscoveryRequest{Node: node, TypeUrl: v3.ClusterType}
+		c.reqs <- &discovery.DiscoveryRequest{Node: cnode, TypeUrl: v3.ClusterType}
 	}
 	if held {
 		select {
@@ -414,12 +478,14 @@ func (s *srvSUT) summary() string {
 		switch {
 		case c.dead:
 			parts[i] = fmt.Sprintf("%d=dead", i)
+		case s.down:
+			parts[i] = fmt.Sprintf("%d=*", i) // what still got through when the queue shut down depends on the moment
 		default:
 			seen := sets.New[string]()
 			for f := range s.seen[i] {
 				// "f:<key>" is reported for keys of forced updates only (a key of an unforced update may or may
 				// not have been merged with a forced one: batching)
-				if strings.HasPrefix(f, "c:") || s.forcedK.Contains(f[2:]) {
+				if !strings.HasPrefix(f, "f:") || s.forcedK.Contains(f[2:]) {
 					seen.Insert(f)
 				}
 			}
@@ -447,6 +513,14 @@ func (s *srvSUT) judge() {
 		if !old.sameContent(r) {
 			s.fail("shared-request-altered-between-proxies")
 		}
+	}
+	// rest detection uses InboundUpdates == CommittedUpdates; the counter itself must agree with the
+	// number of ConfigUpdate calls made here (a consistent miscount would only move the judging point)
+	if in := s.d.InboundUpdates.Load() - s.inBase; in < s.nconfig {
+		s.fail("inbound-update-counter-below-the-number-of-ConfigUpdate-calls")
+	}
+	if s.down {
+		return
 	}
 	for i, c := range s.conns {
 		if c.dead || !c.registered {
@@ -485,6 +559,41 @@ func (s *srvSUT) newWindow() {
 	}
 }
 
+// expect: every connection registered now owes these facts (unless the queue has been shut down).
+func (s *srvSUT) expect(facts factSet, forced bool) {
+	if s.down {
+		return
+	}
+	for _, c := range s.conns {
+		if c.registered && !c.dead {
+			c.expected.Merge(facts)
+			if forced && c.failArmed {
+				c.dead = true // its next Send fails: the stream loop returns the error
+			}
+		}
+	}
+}
+
+// realConn finds the server's connection object of one of our clients (by peer address).
+func (s *srvSUT) realConn(c *srvConn) *pxds.Connection {
+	for _, con := range s.d.AllClients() {
+		if strings.HasSuffix(con.Peer(), ":"+strconv.Itoa(40000+c.idx)) {
+			return con
+		}
+	}
+	return nil
+}
+
+// sharedNode: another live connection presents the same node id (ProxyUpdate looks proxies up by address).
+func (s *srvSUT) sharedNode(c *srvConn) bool {
+	for _, o := range s.conns {
+		if o != c && o.node == c.node {
+			return true
+		}
+	}
+	return false
+}
+
 func (s *srvSUT) conn(t string) *srvConn {
 	i, err := strconv.Atoi(t)
 	if err != nil || i < 0 || i >= len(s.conns) {
@@ -495,7 +604,7 @@ func (s *srvSUT) conn(t string) *srvConn {
 
 func (s *srvSUT) anyStuck() bool {
 	for _, c := range s.conns {
-		if !c.dead && (c.block.Load() || (c.held && s.heldNow == c)) {
+		if c.busy || (!c.dead && (c.block.Load() || (c.held && s.heldNow == c))) {
 			return true
 		}
 	}
@@ -522,7 +631,7 @@ func (s *srvSUT) apply(f []string) (out string) {
 		if i != len(s.conns) {
 			return "bad-op"
 		}
-		r := s.open(i, f[2] == "delta", f[0] == "connheld")
+		r := s.open(i, f[2] == "delta", f[0] == "connheld", i)
 		if f[0] == "connheld" && r == "ok" {
 			s.heldNow = s.conns[i]
 		}
@@ -533,6 +642,7 @@ func (s *srvSUT) apply(f []string) (out string) {
 			return "bad-op"
 		}
 		s.heldNow = nil
+		s.active = true
 		close(s.gateGo)
 		s.gateGo = make(chan struct{})
 		if !c.dead {
@@ -542,12 +652,14 @@ func (s *srvSUT) apply(f []string) (out string) {
 		}
 		return "ok"
 	case "update":
-		if len(f) != 3 || s.ended {
+		// update <forced> <config keys> [<addresses> <waypoints>]; all lists may be empty ("-"): a full push
+		if (len(f) != 3 && len(f) != 5) || s.ended {
 			return "bad-op"
 		}
 		forced := f[1] == "1"
-		keys := sets.New[model.ConfigKey]()
+		req := &model.PushRequest{Forced: forced, Reason: model.NewReasonStats(model.ConfigUpdate)}
 		facts := sets.New[string]()
+		keys := sets.New[model.ConfigKey]()
 		for _, k := range wire.DecList(f[2]) {
 			// occurrences, not accumulated key sets: what is expected and what was seen is counted per sync
 			// window (both are emptied at every sync), and the generator gives most updates names of their own
@@ -559,17 +671,200 @@ func (s *srvSUT) apply(f []string) (out string) {
 				s.forcedK.Insert(showConfigKey(ck))
 			}
 		}
-		s.nupd++
-		req := &model.PushRequest{ConfigsUpdated: keys, Forced: forced, Reason: model.NewReasonStats(model.ConfigUpdate)}
-		for _, c := range s.conns {
-			if c.registered && !c.dead {
-				c.expected.Merge(facts)
-				if forced && c.failArmed {
-					c.dead = true // its next Send fails: the stream loop returns the error
+		if len(keys) > 0 {
+			req.ConfigsUpdated = keys
+		}
+		if len(f) == 5 {
+			if a := wire.DecList(f[3]); len(a) > 0 {
+				req.AddressesUpdated = sets.New(a...)
+				for _, k := range a {
+					facts.Insert("a:" + k)
+				}
+			}
+			if w := wire.DecList(f[4]); len(w) > 0 {
+				req.WaypointsUpdated = sets.New[model.WaypointReference]()
+				for _, k := range w {
+					req.WaypointsUpdated.Insert(parseWaypoint(k))
+					facts.Insert("w:" + showWaypoint(parseWaypoint(k)))
 				}
 			}
 		}
+		if forced {
+			facts.Insert("forced")
+		}
+		s.nupd++
+		s.nconfig++
+		s.active = true
+		s.expect(facts, forced)
 		s.d.ConfigUpdate(req)
+		return "ok"
+	case "proxyupdate":
+		// the second caller of Enqueue: a forced request for one connection carrying the global push context
+		c := s.conn(f[1])
+		if len(f) != 2 || c == nil || c.dead || !c.registered || s.heldNow == c || s.sharedNode(c) || s.ended {
+			return "bad-op"
+		}
+		con := s.realConn(c)
+		if con == nil {
+			s.fail("harness:connection-not-registered")
+			return "ok"
+		}
+		if !s.down {
+			c.expected.Insert("forced")
+			if c.failArmed {
+				c.dead = true
+			}
+		}
+		s.active = true
+		s.d.ProxyUpdate(con.Proxy().Metadata.ClusterID, con.Proxy().IPAddresses[0])
+		return "ok"
+	case "pushall":
+		// the debug trigger: the third producer (a forced request with the global push context, handed to StartPush)
+		if len(f) != 1 || s.ended {
+			return "bad-op"
+		}
+		s.active = true
+		s.expect(sets.New("forced"), true)
+		pxds.AdsPushAll(s.d)
+		return "ok"
+	case "stopconn":
+		// forced disconnect (debug endpoint): Connection.Stop() closes con.stop, the stream loop returns
+		c := s.conn(f[1])
+		if len(f) != 2 || c == nil || c.dead || !c.registered || s.heldNow == c || (c.block.Load() && !c.busy) || s.ended {
+			return "bad-op"
+		}
+		con := s.realConn(c)
+		c.dead = true
+		if con == nil {
+			s.fail("harness:connection-not-registered")
+			return "ok"
+		}
+		if c.busy {
+			// the loop is in Process; give the sender a moment to take the connection's pending request and offer
+			// the event, so that the loop finds both its push channel and its stop channel ready when it comes back
+			for k := 0; k < 100; k++ {
+				_, snap, _ := pxds.VerifC02ServerState(s.d)
+				waiting := false
+				for pc := range snap.Pending {
+					waiting = waiting || pc == con
+				}
+				if !waiting {
+					break
+				}
+				time.Sleep(time.Millisecond)
+			}
+			time.Sleep(2 * time.Millisecond)
+		}
+		con.Stop()
+		return "ok"
+	case "busyreq":
+		// the client stops reading and asks for one more resource type: the stream loop sits in Process, blocked in
+		// Send, and takes no push event until `unblock`.  Only right after a sync (the loop is idle in its select).
+		c := s.conn(f[1])
+		if len(f) != 2 || c == nil || c.dead || !c.registered || s.heldNow == c || c.block.Load() || c.failArmed || c.reqd ||
+			s.active || s.down || s.ended {
+			return "bad-op"
+		}
+		c.block.Store(true)
+		c.busy, c.reqd = true, true
+		before := c.sends.Load()
+		if c.delta {
+			c.dreqs <- &discovery.DeltaDiscoveryRequest{TypeUrl: v3.ListenerType}
+		} else {
+			c.reqs <- &discovery.DiscoveryRequest{TypeUrl: v3.ListenerType}
+		}
+		if !waitUntil(func() bool { return c.sends.Load() > before }) {
+			s.fail("harness:request-not-answered")
+			return "ok"
+		}
+		// The loop took that request in its blocking select.  A second request, waiting while the first is being
+		// answered, is taken by the non-blocking select at the top of the loop - from there the loop goes on to the
+		// blocking select without looking at its stop channel again.
+		if c.delta {
+			c.dreqs <- &discovery.DeltaDiscoveryRequest{TypeUrl: v3.RouteType, ResourceNamesSubscribe: []string{"80"}}
+		} else {
+			c.reqs <- &discovery.DiscoveryRequest{TypeUrl: v3.RouteType, ResourceNames: []string{"80"}}
+		}
+		time.Sleep(5 * time.Millisecond) // (the Receive goroutine hands it to the loop's request channel)
+		select {
+		case c.pulse <- struct{}{}:
+		case <-time.After(patience()):
+			degraded.Store(true)
+			s.fail("harness:blocked-send-not-found")
+			return "ok"
+		}
+		if !waitUntil(func() bool { return c.sends.Load() > before+1 }) {
+			s.fail("harness:second-request-not-answered")
+		}
+		return "ok"
+	case "req":
+		// more client traffic on the stream (an ACK of the last response) while pushes come and go
+		c := s.conn(f[1])
+		if len(f) != 2 || c == nil || c.dead || s.ended {
+			return "bad-op"
+		}
+		nonce, _ := c.nonce.Load().(string)
+		if c.delta {
+			select {
+			case c.dreqs <- &discovery.DeltaDiscoveryRequest{TypeUrl: v3.ClusterType, ResponseNonce: nonce}:
+			default:
+			}
+		} else {
+			select {
+			case c.reqs <- &discovery.DiscoveryRequest{TypeUrl: v3.ClusterType, ResponseNonce: nonce, VersionInfo: "verif"}:
+			default:
+			}
+		}
+		return "ok"
+	case "reconn":
+		// the same node connects again while its old stream is only just ending
+		c := s.conn(f[1])
+		if len(f) != 4 || c == nil || c.dead || s.heldNow != nil || s.ended || (f[3] != "sotw" && f[3] != "delta") {
+			return "bad-op"
+		}
+		j, err := strconv.Atoi(f[2])
+		if err != nil || j != len(s.conns) {
+			return "bad-op"
+		}
+		c.dead = true
+		c.busy = false
+		c.block.Store(false)
+		c.cancel()
+		return s.open(j, f[3] == "delta", false, c.node)
+	case "shutdown":
+		// DiscoveryServer.Shutdown()'s effect on pushes: the push queue shuts down (drains what it has, ignores the rest)
+		if len(f) != 1 || s.down || s.anyStuck() || s.ended {
+			return "bad-op"
+		}
+		s.down = true
+		pxds.VerifC02QueueShutDown(s.d) // what DiscoveryServer.Shutdown does to the queue (it can be called only once)
+		return "ok"
+	case "updatepar":
+		// several producers call ConfigUpdate at the same moment, one key each
+		if len(f) != 3 || s.ended {
+			return "bad-op"
+		}
+		forced := f[1] == "1"
+		var wg sync.WaitGroup
+		for _, k := range wire.DecList(f[2]) {
+			ck := parseConfigKey(k)
+			facts := sets.New("c:" + showConfigKey(ck))
+			if forced {
+				facts.Insert("f:" + showConfigKey(ck))
+				facts.Insert("forced")
+				s.forcedK.Insert(showConfigKey(ck))
+			}
+			s.expect(facts, forced)
+			s.nupd++
+			s.nconfig++
+			s.active = true
+			wg.Add(1)
+			go func() {
+				defer wg.Done()
+				s.d.ConfigUpdate(&model.PushRequest{ConfigsUpdated: sets.New(ck), Forced: forced, Reason: model.NewReasonStats(model.ConfigUpdate)})
+			}()
+		}
+		wg.Wait()
 		return "ok"
 	case "pushed":
 		// barrier: every update accepted so far has been through StartPush (pushFn has returned);
@@ -583,7 +878,7 @@ func (s *srvSUT) apply(f []string) (out string) {
 		return "ok"
 	case "failsend":
 		c := s.conn(f[1])
-		if len(f) != 2 || c == nil || s.heldNow == c {
+		if len(f) != 2 || c == nil || s.heldNow == c || c.busy {
 			return "bad-op" // its first response has not been sent yet
 		}
 		c.failSend.Store(true)
@@ -602,6 +897,7 @@ func (s *srvSUT) apply(f []string) (out string) {
 			return "bad-op"
 		}
 		c.block.Store(false)
+		c.busy = false
 		close(c.unblock)
 		c.unblock = make(chan struct{})
 		return "ok"
@@ -611,6 +907,8 @@ func (s *srvSUT) apply(f []string) (out string) {
 			return "bad-op"
 		}
 		c.dead = true
+		c.busy = false
+		c.block.Store(false) // (a Send blocked on it returns on the cancelled context)
 		c.cancel()
 		if s.heldNow == c { // the initialisation goroutine runs on and finds the stream gone
 			s.heldNow = nil
@@ -629,6 +927,7 @@ func (s *srvSUT) apply(f []string) (out string) {
 		s.judge()
 		sum := s.summary()
 		s.newWindow()
+		s.active = false
 		return sum
 	case "end":
 		if s.ended {
@@ -641,6 +940,7 @@ func (s *srvSUT) apply(f []string) (out string) {
 			s.gateGo = make(chan struct{})
 		}
 		for _, c := range s.conns {
+			c.busy = false
 			if c.block.Load() {
 				c.block.Store(false)
 				close(c.unblock)
@@ -676,13 +976,27 @@ func (s *srvSUT) apply(f []string) (out string) {
 
 var srvKeys = []string{"VirtualService/ns1/a", "DestinationRule/ns1/b", "Gateway/ns3/g", "VirtualService/ns2/v", "DestinationRule/ns2/d", "ServiceEntry/ns2/c"}
 
+var srvAddrs = []string{"net1/10.9.0.1", "net1/10.9.0.2", "ns1/svc.ns1.svc.cluster.local"}
+var srvWps = []string{"ns1/wp.ns1.svc.cluster.local//", "//net1/10.0.9.9"}
+
 func genServerCase(r *wire.Rng, c int, out *wire.Out) {
-	out.Line("case", strconv.Itoa(c), "server")
+	// per-case server settings: push throttle (0 = default 100; 1-2 = saturated), EDS debounce on/off
+	throttle, eds := 0, true
+	if r.Chance(1, 4) {
+		throttle = 1 + r.Intn(2)
+	}
+	if r.Chance(1, 6) {
+		eds = false
+	}
+	out.Line("case", strconv.Itoa(c), "server", strconv.Itoa(throttle), wire.B(eds))
 	n := 0
 	kind := func() string { return wire.Pick(r, []string{"sotw", "delta"}) }
 	alive := []int{}
+	reused := map[int]bool{} // node ids presented by more than one connection
+	reqd := map[int]bool{}   // connections that have made their one busyreq
 	nupd := 0
 	var lastKeys []string
+	drop := func(j int) { alive = append(alive[:j], alive[j+1:]...) }
 	upd := func(forced bool) {
 		var ks []string
 		if lastKeys != nil && r.Chance(1, 3) {
@@ -695,24 +1009,46 @@ func genServerCase(r *wire.Rng, c int, out *wire.Out) {
 			for _, k := range wire.Subset(r, srvKeys, 1, 3) {
 				ks = append(ks, k+strconv.Itoa(nupd)) // names of its own
 			}
-			if len(ks) == 0 {
+			if len(ks) == 0 && !r.Chance(1, 4) {
 				ks = []string{wire.Pick(r, srvKeys) + strconv.Itoa(nupd)}
 			}
 		}
 		nupd++
-		lastKeys = ks
-		out.Line("update", wire.B(forced), wire.EncList(ks))
+		if len(ks) > 0 {
+			lastKeys = ks
+		}
+		switch {
+		case len(ks) == 0:
+			// a notification that names nothing: a full push (forced), or addresses / waypoints only
+			if r.Chance(1, 2) {
+				out.Line("update", "1", "-")
+			} else {
+				out.Line("update", wire.B(forced), "-", wire.EncList([]string{wire.Pick(r, srvAddrs) + strconv.Itoa(nupd)}),
+					wire.EncList(wire.Subset(r, srvWps, 1, 2)))
+			}
+		case r.Chance(1, 5):
+			out.Line("update", wire.B(forced), wire.EncList(ks), wire.EncList([]string{wire.Pick(r, srvAddrs) + strconv.Itoa(nupd)}), "-")
+		default:
+			out.Line("update", wire.B(forced), wire.EncList(ks))
+		}
 	}
 	for i, k := 0, 1+r.Intn(3); i < k; i++ {
 		out.Line("conn", strconv.Itoa(n), kind())
 		alive = append(alive, n)
 		n++
 	}
-	for step, steps := 0, 2+r.Intn(5); step < steps; step++ {
-		switch r.Intn(7) {
-		case 0, 1: // a burst of updates (merged by debounce and by the queue)
-			for i, k := 0, 1+r.Intn(4); i < k; i++ {
+	for step, steps := 0, 2+r.Intn(6); step < steps; step++ {
+		switch r.Intn(17) {
+		case 0, 1: // a burst of updates (merged by debounce and by the queue); sometimes long enough to fill the push channel
+			k := 1 + r.Intn(4)
+			if r.Chance(1, 5) {
+				k = 11 + r.Intn(8)
+			}
+			for i := 0; i < k; i++ {
 				upd(r.Chance(1, 2))
+				if len(alive) > 0 && r.Chance(1, 6) {
+					out.Line("req", strconv.Itoa(wire.Pick(r, alive))) // client traffic in between
+				}
 			}
 			out.Line("sync")
 			if lastKeys != nil && r.Chance(1, 3) {
@@ -742,11 +1078,15 @@ func genServerCase(r *wire.Rng, c int, out *wire.Out) {
 			if len(alive) > 0 {
 				j := r.Intn(len(alive))
 				out.Line("failsend", strconv.Itoa(alive[j]))
-				upd(true)
+				if r.Chance(1, 3) && !reused[alive[j]] {
+					out.Line("proxyupdate", strconv.Itoa(alive[j]))
+				} else {
+					upd(true)
+				}
 				if r.Chance(1, 2) {
 					upd(r.Chance(1, 2))
 				}
-				alive = append(alive[:j], alive[j+1:]...)
+				drop(j)
 				out.Line("sync")
 			}
 		case 4: // the client stops reading (Send blocks), more pushes pile up for it, then it goes away
@@ -757,7 +1097,7 @@ func genServerCase(r *wire.Rng, c int, out *wire.Out) {
 				upd(true)
 				if r.Chance(2, 3) {
 					out.Line("closectx", strconv.Itoa(alive[j]))
-					alive = append(alive[:j], alive[j+1:]...)
+					drop(j)
 				} else {
 					out.Line("unblock", strconv.Itoa(alive[j]))
 				}
@@ -767,16 +1107,127 @@ func genServerCase(r *wire.Rng, c int, out *wire.Out) {
 			if len(alive) > 0 {
 				j := r.Intn(len(alive))
 				out.Line("closectx", strconv.Itoa(alive[j]))
-				alive = append(alive[:j], alive[j+1:]...)
+				drop(j)
 				upd(r.Chance(1, 2))
 				out.Line("sync")
 			}
+		case 6, 7: // ProxyUpdate: the other producer of the push queue, at any point of a push round
+			if len(alive) > 0 {
+				if r.Chance(1, 2) {
+					upd(r.Chance(1, 2))
+				}
+				for i, k := 0, 1+r.Intn(2); i < k; i++ {
+					a := wire.Pick(r, alive)
+					if r.Chance(1, 4) {
+						out.Line("pushall")
+					} else if !reused[a] {
+						out.Line("proxyupdate", strconv.Itoa(a))
+					}
+					if r.Chance(1, 2) {
+						upd(r.Chance(1, 2))
+					}
+				}
+				out.Line("sync")
+			}
+		case 8: // forced disconnect (Connection.Stop) while pushes are on their way
+			if len(alive) > 0 {
+				j := r.Intn(len(alive))
+				upd(true)
+				if r.Chance(1, 2) {
+					upd(r.Chance(1, 2))
+				}
+				out.Line("stopconn", strconv.Itoa(alive[j]))
+				drop(j)
+				upd(r.Chance(1, 2))
+				out.Line("sync")
+			}
+		case 9: // several producers at once
+			var ks []string
+			for i, k := 0, 2+r.Intn(5); i < k; i++ {
+				ks = append(ks, wire.Pick(r, srvKeys)+strconv.Itoa(nupd)+"p"+strconv.Itoa(i))
+			}
+			nupd++
+			out.Line("updatepar", wire.B(r.Chance(1, 2)), wire.EncList(ks))
+			out.Line("sync")
+		case 10: // the same node connects again while its old stream is only just ending
+			if len(alive) > 0 {
+				j := r.Intn(len(alive))
+				upd(r.Chance(1, 2))
+				out.Line("sync") // (what a connection that registers in the middle of a window still gets of it is a race)
+				out.Line("reconn", strconv.Itoa(alive[j]), strconv.Itoa(n), kind())
+				reused[alive[j]], reused[n] = true, true
+				drop(j)
+				alive = append(alive, n)
+				n++
+				upd(r.Chance(1, 2))
+				out.Line("sync")
+			}
+		case 11: // endpoints only (pushed at once, outside the debounce loop, when EDS debounce is off) - in a window of its own
+			out.Line("sync")
+			out.Line("update", "0", wire.EncList([]string{"Endpoints/ns1/e" + strconv.Itoa(nupd)}))
+			nupd++
+			out.Line("sync")
+		case 12: // ProxyUpdate for a connection whose push is stuck in Send while a newer snapshot is already waiting for it
+			if len(alive) > 0 {
+				j := r.Intn(len(alive))
+				if !reused[alive[j]] {
+					out.Line("sync")
+					out.Line("blocksend", strconv.Itoa(alive[j]))
+					upd(true)
+					out.Line("pushed")
+					upd(r.Chance(1, 2))
+					out.Line("pushed")
+					out.Line("proxyupdate", strconv.Itoa(alive[j]))
+					if r.Chance(1, 2) {
+						upd(r.Chance(1, 2))
+					}
+					out.Line("unblock", strconv.Itoa(alive[j]))
+					out.Line("sync")
+				}
+			}
+		case 13, 14: // forced disconnect while the stream loop is busy with a client request and a push event is waiting for it
+			out.Line("sync")
+			var busy []int
+			for _, a := range alive {
+				if !reqd[a] && r.Chance(3, 4) {
+					out.Line("busyreq", strconv.Itoa(a))
+					reqd[a] = true
+					busy = append(busy, a)
+				}
+			}
+			upd(r.Chance(1, 2))
+			if r.Chance(1, 3) {
+				upd(r.Chance(1, 2))
+			}
+			out.Line("pushed")
+			for _, a := range busy {
+				if r.Chance(4, 5) {
+					out.Line("stopconn", strconv.Itoa(a))
+					for j := range alive {
+						if alive[j] == a {
+							drop(j)
+							break
+						}
+					}
+				}
+			}
+			for _, a := range busy {
+				out.Line("unblock", strconv.Itoa(a))
+			}
+			out.Line("sync")
 		default:
 			out.Line("sync")
 			out.Line("conn", strconv.Itoa(n), kind())
 			alive = append(alive, n)
 			n++
 		}
+	}
+	if r.Chance(1, 8) {
+		// DiscoveryServer.Shutdown() with live stream loops and updates still coming
+		upd(true)
+		out.Line("shutdown")
+		upd(r.Chance(1, 2))
+		out.Line("sync")
 	}
 	out.Line("end")
 }
